@@ -1008,7 +1008,7 @@ def gen_near_miss_type(r, hier):
   """(form name, annotation), biased to depth-2 forms."""
   forms = ["Tuple[C[X], ...]", "Sequence[C[X]]", "Iterable[C[X]]", "Tuple[C[X], C[Y]]", "Dict[K, C[X]]",
            "List[Tuple[X, Y]]", "List[C[X]]", "Set[Tuple[X, Y]]", "Mapping[K, Tuple[X, ...]]", "C[X]",
-           "Tuple[X, Y, Z]", "Optional[...]", "Union[...]"]
+           "Tuple[X, Y, Z]", "Optional[...]", "Union[...]", "Union[C[X], C[Y]]"]
   f = r.choice(forms)
   def base(g):
     if g == "Tuple[C[X], ...]":
@@ -1033,6 +1033,10 @@ def gen_near_miss_type(r, hier):
     if g == "C[X]":
       return _nm_container(r, hier)
     return ("ftuple", (_nm_leaf(r, hier), _nm_leaf(r, hier), _nm_leaf(r, hier)))
+  if f == "Union[C[X], C[Y]]":       # two options with the same head (same full name), different parameters
+    c = r.choice(["list", "set", "tuple", "Sequence", "frozenset"])
+    x, y = r.sample(_NM_SCALARS + hier.class_names()[:2], 2)
+    return f, ("union", (("cls", c, (("cls", x, ()),)), ("cls", c, (("cls", y, ()),))))
   if f == "Optional[...]":
     return f, ("union", (base(r.choice(forms[:11])), NONE_T))
   if f == "Union[...]":
